@@ -74,8 +74,12 @@ def _cap(*a, **k):
 
 
 class Ref:
-    def __init__(self, prog):
+    def __init__(self, prog, calldef_caller="own"):
         from mc.c05_ir import CFGS
+
+        # "own": a def written inside a call is a def like any other (its caller is whoever calls it with content);
+        # "outer": alternative model used only to classify a known defect (it sees the call site's caller)
+        self.calldef_caller = calldef_caller
 
         cfg = CFGS[prog["cfg"]]
         self.prog = prog
@@ -123,7 +127,7 @@ class Ref:
         assert len(self.bufs) == 1
         return "".join(self.bufs[0])
 
-    def make_def(self, d, env_of_definition):
+    def make_def(self, d, env_of_definition, keep_caller=False):
         """the callable a def is; env_of_definition is looked at when called (a closure), `caller=` is how a call
         with content hands its caller object over"""
         bind = binder(d["sig"])
@@ -134,7 +138,8 @@ class Ref:
             bound = bind(*a, **k)
             env = dict(env_of_definition)
             env.update(bound)
-            env["caller"] = caller
+            if not keep_caller:
+                env["caller"] = caller
             for nd in d["defs"]:
                 env[nd["name"]] = self.make_def(nd, env)
             own = d["buffered"] or bool(flt)
@@ -204,7 +209,7 @@ class Ref:
         if form in ("self", "local", "tcallself", "tself", "tlocal"):
             target = getattr(env["self"], name)
         else:
-            target = env[name]
+            target = self.ev(name, env)
         if form in ("tself", "tlocal"):
             a = ()
             kw = {}
@@ -233,14 +238,14 @@ class Ref:
 
         c.body = body
         for nd in content["named"]:
-            setattr(c, nd["name"], self.make_def(nd, env))
+            setattr(c, nd["name"], self.make_def(nd, env, keep_caller=self.calldef_caller == "outer"))
         ret = target(*a, __caller=c, **kw)
         self.emit(ret)
 
 
-def expected(prog):
+def expected(prog, **kw):
     """("ok", text) | ("exc", exception class name)"""
     try:
-        return ("ok", Ref(prog).render())
+        return ("ok", Ref(prog, **kw).render())
     except TypeError:
         return ("exc", "TypeError")
